@@ -35,9 +35,12 @@ type scriptedPeer struct {
 	pb.UnimplementedDKGServer
 	reply func(req *pb.ContributeRequest) (*pb.ContributeResponse, error)
 	got   []*pb.ContributeRequest
+
+	prepared []*pb.PrepareRequest
 }
 
-func (p *scriptedPeer) Prepare(context.Context, *pb.PrepareRequest) (*emptypb.Empty, error) {
+func (p *scriptedPeer) Prepare(_ context.Context, req *pb.PrepareRequest) (*emptypb.Empty, error) {
+	p.prepared = append(p.prepared, req)
 	return &emptypb.Empty{}, nil
 }
 func (p *scriptedPeer) Execute(context.Context, *pb.ExecuteRequest) (*emptypb.Empty, error) {
@@ -321,4 +324,73 @@ func mintNode(name string, ca *x509.Certificate, caKey *rsa.PrivateKey) (*nodeCe
 		return nil, err
 	}
 	return &nodeCert{certPEM: pemCert(der), keyPEM: pemKey(key)}, nil
+}
+
+// realTransportPrepare: what a participant is told about a generation, sent through the real gRPC sender
+// (services/sender/grpc) to a scripted peer: account, threshold and the participant list - identifiers, names and
+// ports - must arrive as they were handed to the sender (every participant stores that list with its account).
+func realTransportPrepare(ctx context.Context, stats map[string]int) ([]string, error) {
+	ca, caKey, err := mintCA("verif cluster authority")
+	if err != nil {
+		return nil, err
+	}
+	caPEM := pemCert(ca.Raw)
+	nameA, nameP := "127.0.0.1", "127.0.0.2"
+	cA, err := mintNode(nameA, ca, caKey)
+	if err != nil {
+		return nil, err
+	}
+	cP, err := mintNode(nameP, ca, caKey)
+	if err != nil {
+		return nil, err
+	}
+	peer := &scriptedPeer{}
+	srvCert, err := tls.X509KeyPair(cP.certPEM, cP.keyPEM)
+	if err != nil {
+		return nil, err
+	}
+	pool := x509.NewCertPool()
+	pool.AppendCertsFromPEM(caPEM)
+	lis, err := net.Listen("tcp", nameP+":0")
+	if err != nil {
+		return nil, err
+	}
+	portP := uint32(lis.Addr().(*net.TCPAddr).Port)
+	srv := grpc.NewServer(grpc.Creds(credentials.NewTLS(&tls.Config{Certificates: []tls.Certificate{srvCert}, ClientCAs: pool, ClientAuth: tls.RequireAndVerifyClientCert, MinVersion: tls.VersionTLS13})))
+	pb.RegisterDKGServer(srv, peer)
+	go func() { _ = srv.Serve(lis) }()
+	defer srv.Stop()
+	snd, err := sendergrpc.New(ctx, sendergrpc.WithName(nameA), sendergrpc.WithServerCert(cA.certPEM), sendergrpc.WithServerKey(cA.keyPEM), sendergrpc.WithCACert(caPEM))
+	if err != nil {
+		return nil, err
+	}
+	var fails []string
+	for round, parts := range [][]*core.Endpoint{
+		{{ID: 1, Name: nameA, Port: 14001}, {ID: 2, Name: nameP, Port: portP}, {ID: 3, Name: "127.0.0.3", Port: 14003}},
+		{{ID: 7, Name: "127.0.0.3", Port: 9}, {ID: 2, Name: nameP, Port: portP}, {ID: 1 << 40, Name: nameA, Port: 65535}, {ID: 4, Name: "signer-test04", Port: 14004}},
+	} {
+		acct := fmt.Sprintf("Wallet 3/told%d", round)
+		thr := uint32(2 + round)
+		noteRequest("Prepare(%q, threshold %d, %d participants) through the real gRPC sender to a scripted peer", acct, thr, len(parts))
+		err := snd.Prepare(ctx, parts[1], acct, []byte("pass"), thr, parts)
+		requestDone()
+		stats["real-transport.prepare"]++
+		if err != nil || len(peer.prepared) != round+1 {
+			fails = append(fails, fmt.Sprintf("Prepare through the real gRPC sender: %v (%d requests arrived)", err, len(peer.prepared)))
+			continue
+		}
+		got := peer.prepared[round]
+		var want, have []string
+		for _, p := range parts {
+			want = append(want, fmt.Sprintf("%d=%s:%d", p.ID, p.Name, p.Port))
+		}
+		for _, p := range got.GetParticipants() {
+			have = append(have, fmt.Sprintf("%d=%s:%d", p.GetId(), p.GetName(), p.GetPort()))
+		}
+		if got.GetAccount() != acct || got.GetThreshold() != thr || string(got.GetPassphrase()) != "pass" || fmt.Sprint(want) != fmt.Sprint(have) {
+			fails = append(fails, fmt.Sprintf("Prepare through the real gRPC sender: handed over account %q threshold %d participants %v; the peer received account %q threshold %d participants %v - every participant would store another participant list with the account",
+				acct, thr, want, got.GetAccount(), got.GetThreshold(), have))
+		}
+	}
+	return fails, nil
 }
